@@ -34,6 +34,8 @@ VARIANTS = {
     "botan-asan": dict(cxx="clang++", cflags="-O1 -g -fno-omit-frame-pointer %s" % ASAN,
                        crypto="botan", ld=ASAN),
     "ossl-plain": dict(cxx="g++", cflags="-O1 -g", crypto="openssl", ld=""),
+    # shared library + the repository's own softhsm2-util (which loads a module with dlopen); used by C14
+    "ossl-shared": dict(cxx="g++", cflags="-O1 -g -fPIC", crypto="openssl", ld=""),
 }
 
 CONFIG_COMMON = {
@@ -153,6 +155,21 @@ def gen_variant(name, guard):
             o = native_obj("p11sched.cpp")
             n.append("build p11sched: link %s %s %s\n  extra = %s" % (o, "obj/native_fs_shim.o", libobjs, wrapflags))
             targets.append("p11sched")
+    if name == "ossl-shared":
+        # (the static libsqlite3.a is not position independent: this variant links the shared one)
+        n.append("build libsofthsm2.so: link %s\n  extra = -shared\n  libs = -lcrypto -lsqlite3 -lpthread -ldl -lm" % libobjs)
+        targets.append("libsofthsm2.so")
+        uobjs = []
+        binc = "-I%s -I%s" % (os.path.join(REPO, "src/bin/common"), os.path.join(REPO, "src/bin/util"))
+        for src_ in ("src/bin/util/softhsm2-util.cpp", "src/bin/util/softhsm2-util-ossl.cpp", "src/bin/common/findslot.cpp", "src/bin/common/getpw.cpp",
+                     "src/bin/common/library.cpp"):
+            o = "obj/bin_%s.o" % os.path.basename(src_)[:-4]
+            n.append("build %s: cxx %s\n  extra = %s" % (o, os.path.join(REPO, src_), binc))
+            uobjs.append(o)
+        # the utility links the convenience libraries only (it defines the singletons of SoftHSM.cpp itself)
+        sub = " ".join(o for o in objs if os.path.basename(o).split("_")[0] in ("common", "crypto", "data", "object", "handle", "session", "slot"))
+        n.append("build softhsm2-util: link %s %s\n  libs = -lcrypto -lsqlite3 -lpthread -ldl -lm" % (" ".join(uobjs), sub))
+        targets.append("softhsm2-util")
     n.append("default %s" % " ".join(targets if targets else objs))
     write_if_changed(os.path.join(bdir, "build.ninja"), "\n".join(n) + "\n")
     return bdir, targets
